@@ -114,7 +114,7 @@ def main():
         ],
         "checks": checks,
         "not_applicable": na,
-        "notes": "Runtime monitoring family. ./check <id> rebuilds the monitor against /repo's working tree (cargo path deps), runs it on 16 shards, rewrites evidence/<id>.json, prints KNOWN-FINDING lines for entries of known_findings.jsonl and VIOLATION lines (exit 1) otherwise; exit 2 = inconclusive (tool failure / required coverage not observed).",
+        "notes": "Runtime monitoring family. ./check <id> rebuilds the monitor against /repo's working tree (cargo path deps), runs it on 16 shards (profile mon: debug assertions and overflow checks on) and repeats it at a quarter of the cases in the plain release profile (C12 additionally in a build without the std feature), rewrites evidence/<id>.json, prints KNOWN-FINDING lines for entries of known_findings.jsonl and VIOLATION lines (exit 1) otherwise; exit 2 = inconclusive (tool failure / required coverage not observed).",
     }
     json.dump(m, open(os.path.join(ROOT, "MANIFEST.json"), "w"), indent=1)
     print("claimed:", len(checks), "not_applicable:", len(na))
